@@ -54,11 +54,12 @@ Qed.
 
 Lemma v_go_history (g : go val) ops :
   (exists l, M_go_init val_eqb l = Ok g) \/ (exists n, g = M_go_auto VInt n) ->
+  go_dom val_eqb vto_Z g ops = true ->
   vgo_wf (fst (M_go_run val_eqb vto_Z g ops)) /\
   (g_mut (fst (M_go_run val_eqb vto_Z g ops)), map is_ok (snd (M_go_run val_eqb vto_Z g ops)))
     = S_go_run val_eqb (g_mut g) ops.
 Proof.
-  intros S. apply (go_run_refines val val_eqb VInt vto_Z val_eqb_spec vto_of vof_to ops g).
+  intros S D. apply (go_run_refines val val_eqb VInt vto_Z val_eqb_spec vto_of vof_to ops g); [|exact D].
   apply v_go_start_wf. exact S.
 Qed.
 
@@ -66,15 +67,24 @@ Definition v_go_labels_laws := S_go_run_laws val val_eqb VInt vto_Z val_eqb_spec
 Definition v_go_observe := go_observe_refines val val_eqb VInt vto_Z val_eqb_spec vto_of vof_to.
 
 (* a history that promotes an auto-integer index to a mapped one, with a rejected float alias (1.0 on
-   [0,1]: the regression input of the repaired finding C02-autogo-float-append) on the way *)
+   [0,1]: the regression input of the repaired finding C02-autogo-float-append), an extend rejected as a
+   whole because one value is held, and an accepted extend *)
 Example go_history_example :
   let ops := [OpAppend (VInt 1, KOther); OpAppend (VInt 2, KInt); OpAppend (VStr "x", KOther);
-              OpAppend (VInt 2, KInt); OpTouch; OpExtend [(VInt 7, KInt); (VStr "x", KOther); (VInt 9, KInt)]] in
+              OpAppend (VInt 2, KInt); OpTouch; OpExtend [(VInt 7, KInt); (VStr "x", KOther); (VInt 9, KInt)];
+              OpExtend [(VInt 7, KInt); (VInt 9, KInt)]; OpExtend [(VInt 5, KInt); (VInt 5, KInt)]] in
+  go_dom val_eqb vto_Z (M_go_auto VInt 2) ops = true /\
   S_go_run val_eqb (map VInt (iota 2)) ops
-    = ([VInt 0; VInt 1; VInt 2; VStr "x"; VInt 7], [false; true; true; false; true; false]) /\
-  g_mut (fst (M_go_run val_eqb vto_Z (M_go_auto VInt 2) ops)) = [VInt 0; VInt 1; VInt 2; VStr "x"; VInt 7] /\
-  snd (M_go_run val_eqb vto_Z (M_go_auto VInt 2) ops)
-    = [Err "KeyError"; Ok tt; Ok tt; Err "KeyError"; Ok tt; Err "KeyError"].
+    = ([VInt 0; VInt 1; VInt 2; VStr "x"; VInt 7; VInt 9], [false; true; true; false; true; false; true; false]) /\
+  g_mut (fst (M_go_run val_eqb vto_Z (M_go_auto VInt 2) ops)) = [VInt 0; VInt 1; VInt 2; VStr "x"; VInt 7; VInt 9].
+Proof. vm_compute. repeat split; reflexivity. Qed.
+
+(* the guard is needed: on a map-less index a float alias inside an extend passes the validation *)
+Example go_dom_needed :
+  let ops := [OpExtend [(VInt 5, KInt); (VInt 1, KOther)]] in
+  go_dom val_eqb vto_Z (M_go_auto VInt 2) ops = false /\
+  g_mut (fst (M_go_run val_eqb vto_Z (M_go_auto VInt 2) ops)) = [VInt 0; VInt 1; VInt 5] /\
+  fst (S_go_run val_eqb (map VInt (iota 2)) ops) = [VInt 0; VInt 1].
 Proof. vm_compute. repeat split; reflexivity. Qed.
 
 Example auto_key_ok_example :
